@@ -37,6 +37,20 @@ func withSpareCapacity(t *rapid.T, n run.Node) run.Node {
 	return n
 }
 
+// withWrapper puts the root, or one value inside it, behind a pointer or a
+// named map / slice type: to the library that is an opaque value, and it must
+// be the same opaque value to a compiled and to a fresh expression.
+func withWrapper(t *rapid.T, n run.Node) run.Node {
+	if (n.T == "array" || n.T == "object") && len(n.A) > 0 && rapid.IntRange(0, 2).Draw(t, "wrapdeeper") > 0 {
+		i := rapid.IntRange(0, len(n.A)-1).Draw(t, "wrapat")
+		a := append([]run.Node{}, n.A...)
+		a[i] = withWrapper(t, a[i])
+		n.A = a
+		return n
+	}
+	return run.Node{T: gen.Pick(t, "wrapkind", run.WrapKinds), A: []run.Node{n}}
+}
+
 type c06Result struct {
 	raw  any
 	snap string
@@ -188,9 +202,14 @@ func TestC06_Reuse(t *testing.T) {
 		ndocs := rapid.IntRange(1, 4).Draw(t, "ndocs")
 		vals := make([]jv.Val, ndocs)
 		docs := make([]run.Node, ndocs)
+		wrapped := false
 		for i := range docs {
 			vals[i] = gen.Doc(t, gen.DocCfg{MaxDepth: 3, MaxFan: 4})
 			docs[i] = withSpareCapacity(t, run.FromVal(vals[i]))
+			if rapid.IntRange(0, 11).Draw(t, "wrapped") == 0 {
+				docs[i] = withWrapper(t, docs[i])
+				wrapped = true
+			}
 		}
 		cfg := gen.ExprCfg{MaxDepth: 2, MaxSteps: 4, Funcs: true, Let: true, Arith: true, Compare: true}
 		g := &gen.G{T: t, Root: vals[0], Cfg: cfg}
@@ -329,6 +348,9 @@ func TestC06_Reuse(t *testing.T) {
 			if r.Undet != "" || r.Err.Count() > 1 {
 				multi = true
 			}
+		}
+		if wrapped {
+			multi = true // the reference interpreter does not see the wrapper: faults are not tracked
 		}
 		if updated {
 			multi = true // the documents change under way: which of several faults comes first is not tracked
